@@ -67,7 +67,7 @@ type routed struct {
 	famStart int64
 	exp      *Expect
 	stale    bool // IsOutOfTimeRange was already set on the freshly parsed (pooled) batch
-	preEpoch bool // the batch also carries a row with a timestamp in [-999,-1] ms (just below the unix epoch)
+	preEpoch bool // the batch also carries a row with a pre-epoch or overflowing timestamp
 	seenIter int
 }
 
@@ -93,7 +93,7 @@ func runRoute(c *core.Ctx, r *rec, idx int) {
 		r: r, g: &Gen{r: c.Rand(fmt.Sprintf("route-%d", idx)), uid: 1_000_000_000 + int64(idx)*10_000_000},
 		fb: flatbuffers.NewBuilder(2048), dec: newStorageDecoder(), pool: map[*metric.BrokerBatchRows]*poolInfo{},
 	}
-	nScen := c.Pick(8, 120)
+	nScen := c.Pick(48, 180)
 	for s := 0; s < nScen; s++ {
 		rc.runScenario(fmt.Sprintf("route-%d/%d", idx, s), c.Pick(36, 70))
 	}
@@ -141,7 +141,7 @@ func (rc *routeCtx) timestamp(sc *scenario, now int64, allowPreEpoch bool) (ts i
 	g := rc.g
 	if allowPreEpoch && sc.Behind > 0 && g.r.Intn(12) == 0 {
 		// far outside the window: a client's "-1 = unset" style timestamp
-		return []int64{-1, -5, -999}[g.r.Intn(3)], false
+		return []int64{-1, -5, -999, -3310964750324526831}[g.r.Intn(4)], false
 	}
 	lo, hi := -400*dayMs, 400*dayMs
 	if sc.Behind > 0 {
@@ -414,12 +414,12 @@ func (rc *routeCtx) genAndParse(sc *scenario, b int) ([]*routed, *metric.BrokerB
 	}
 	hasPreEpoch := false
 	for _, x := range rs {
-		if x.m.TS < 0 && x.m.TS > -1000 {
+		if outOfDomainTS(x.m.TS) {
 			hasPreEpoch = true
 		}
 	}
 	if hasPreEpoch {
-		r.Count("batches_with_a_timestamp_just_below_the_epoch", 1)
+		r.Count("batches_with_an_out_of_domain_timestamp", 1)
 		for _, x := range rs {
 			x.preEpoch = true
 		}
@@ -587,12 +587,16 @@ func (rc *routeCtx) routeByIterators(sc *scenario, rs []*routed, batch *metric.B
 	}
 }
 
-const preEpochClass = "C16/timestamp-just-below-epoch-drops-shard-group"
+const preEpochClass = "C16/out-of-domain-timestamp-row-drops-shard-group"
+
+// outOfDomainTS: timestamps for which lindb's family calculators are not self-consistent (before the unix epoch the
+// second is truncated towards zero; absurdly large values overflow time.Date).
+func outOfDomainTS(ts int64) bool { return ts < 0 || ts > 253402300799999 }
 
 func preEpochMsg(detail string) string {
-	return "a row with a timestamp in [-999,-1] ms sorts first in its shard group; BrokerBatchShardFamilyIterator.HasNextFamily computes a family range " +
-		"that does not contain that timestamp (time.Unix(ts/1000) truncates towards zero), the group stays empty, HasNextFamily returns false and every other row " +
-		"of that shard in the batch is silently dropped: " + detail
+	return "the batch carries a row with a pre-epoch (e.g. -1) or overflowing timestamp; BrokerBatchShardFamilyIterator.HasNextFamily computes a family range " +
+		"that does not contain that timestamp (time.Unix(ts/1000) truncates towards zero / time.Date overflows), the group stays empty, HasNextFamily returns false " +
+		"and every row of that shard sorted behind it is silently dropped: " + detail
 }
 
 func (rc *routeCtx) droppedInWindow(sc *scenario, x *routed, how string) {
